@@ -282,7 +282,9 @@ def particle_number_measurement(
 
     modes = instruction.modes
 
-    marginal_sampling = set(modes) != set(range(state.d))
+    # NOTE: The comparison is sensitive to the order of the modes, since the outcomes
+    # need to be returned in the order the modes are specified.
+    marginal_sampling = tuple(modes) != tuple(range(state.d))
 
     common_kwargs = dict(
         input=initial_state,
